@@ -288,6 +288,97 @@ pub fn boundary_product(mode: Mode, run: &mut Run) -> Stats {
     total
 }
 
+/// (d) operand value sweep: every int instruction on every ordered triple, every float
+/// instruction on every ordered pair of a *wide* value alphabet (powers of two, the square and
+/// cube roots of i64::MAX, the u32 boundary of exponents, halves of the extremes, subnormals,
+/// the i64 boundary among floats, negative NaN, ...), on roomy stacks.  Complements (b), whose
+/// value alphabet is small because it is multiplied with stack shapes and capacity patterns.
+pub fn wide_ints(quick: bool) -> Vec<i64> {
+    let mut v: Vec<i64> = vec![
+        0, 1, -1, 2, -2, 3, -3, 4, 7, -7, 10, 62, 63, 64, 65,
+        (1 << 31) - 1, 1 << 31, (1 << 32) - 1, 1 << 32, (1 << 32) + 1,
+        2_097_151, 2_097_152, 3_037_000_499, 3_037_000_500, -3_037_000_500,
+        i64::MAX, i64::MAX - 1, i64::MIN, i64::MIN + 1, i64::MAX / 2, i64::MAX / 2 + 1, i64::MIN / 2, i64::MIN / 2 - 1,
+    ];
+    if !quick {
+        v.extend([5, -4, 9, 16, 31, 32, 33, 100, -100, 1 << 53, (1 << 53) + 1, 1 << 62, -(1 << 62), 4_294_967_297, 6_074_000_999, -(1 << 31), -(1 << 32)]);
+    }
+    v
+}
+pub fn wide_floats(quick: bool) -> Vec<f64> {
+    let mut v: Vec<f64> = vec![
+        0.0, -0.0, 1.0, -1.0, 1.5, -2.0, 0.5, 2.5, -2.5, 0.1, 0.2, 3.0,
+        1e308, -1e308, f64::MAX, f64::MIN, f64::MIN_POSITIVE, 5e-324, -5e-324, 1e-320,
+        f64::INFINITY, f64::NEG_INFINITY, f64::NAN, -f64::NAN,
+        9.223372036854775e18, 9.223372036854776e18, -9.223372036854776e18, -9.223372036854778e18, 9007199254740993.0, 0.9999999999999999, -0.9999999999999999,
+    ];
+    if !quick {
+        v.extend([1e-300, 1e300, -1e300, 123456.789, -7.25, 4503599627370496.5, 2147483648.5, -2147483649.5, f64::EPSILON, 1e19, -1e19]);
+    }
+    v
+}
+pub fn value_sweep(mode: Mode, run: &mut Run) -> Stats {
+    let quick = run.quick();
+    let ints = wide_ints(quick);
+    let floats = wide_floats(quick);
+    let alpha = instruction_alphabet(true);
+    let int_instrs: Vec<&(String, PushInstruction)> = alpha.instrs.iter().filter(|(_, i)| matches!(i, PushInstruction::IntInstruction(_) | PushInstruction::BoolInstruction(_))).collect();
+    let float_instrs: Vec<&(String, PushInstruction)> = alpha.instrs.iter().filter(|(_, i)| matches!(i, PushInstruction::FloatInstruction(_)) || format!("{i}").contains("FromFloat")).collect();
+    run.bound("d.wide_int_values", json!(ints.len()));
+    run.bound("d.wide_float_values", json!(floats.len()));
+    run.bound("d.shape", json!("ints: all ordered triples (top, second, third); floats: all ordered pairs; each with both booleans on the bool stack; roomy capacities"));
+    let one = |st: &mut Stats, viols: &mut Vec<(String, String, Value)>, base: &RState, instrs: &[&(String, PushInstruction)]| {
+        let real = make_real(base, 100);
+        st.states += 1;
+        for (name, instr) in instrs {
+            let (v, _) = check_perform(mode, &real, base, instr, name, st);
+            if let Some((key, what)) = v {
+                if viols.len() < 50 {
+                    viols.push((key, what, json!({"check": format!("{mode:?}"), "kind": "perform", "state": rstate_json(base), "state_full": rstate_ser(base), "instruction": name})));
+                }
+            }
+        }
+    };
+    let results = mcx::par_map(ints.len() + floats.len(), |k| {
+        let mut st = Stats::default();
+        let mut viols: Vec<(String, String, Value)> = vec![];
+        let mut base = RState::empty([16; 4]);
+        base.inputs = default_inputs();
+        if k < ints.len() {
+            let z = ints[k];
+            for y in &ints {
+                for x in &ints {
+                    for b in [true, false] {
+                        base.int = vec![z, *y, *x];
+                        base.float = vec![floats[k % floats.len()]];
+                        base.boolean = vec![b];
+                        one(&mut st, &mut viols, &base, &int_instrs);
+                    }
+                }
+            }
+        } else {
+            let y = floats[k - ints.len()];
+            for x in &floats {
+                base.int = vec![ints[k % ints.len()]];
+                base.float = vec![1.25, y, *x];
+                base.boolean = vec![k % 2 == 0];
+                one(&mut st, &mut viols, &base, &float_instrs);
+            }
+        }
+        (st, viols)
+    });
+    let mut total = Stats::default();
+    for (st, viols) in results {
+        total.merge(&st);
+        for (k, w, r) in viols {
+            run.violation(k, w, r);
+        }
+    }
+    run.note("d.states", json!(total.states));
+    run.note("d.transitions", json!(total.transitions));
+    total
+}
+
 pub fn set_caps(s: &mut PushState, caps: [usize; 4]) {
     use push::push_vm::HasStack;
     s.stack_mut::<PushProgram>().set_max_stack_size(caps[EXEC]);
@@ -589,16 +680,17 @@ pub fn run(mode: Mode, run: &mut Run) {
     let quick = run.quick();
     let b = boundary_product(mode, run);
     let a = transition_system(mode, run);
+    let d = value_sweep(mode, run);
     let mut rows = b.rows.clone();
-    for (k, v) in &a.rows {
+    for (k, v) in a.rows.iter().chain(d.rows.iter()) {
         let e = rows.entry(k.clone()).or_default();
         for i in 0..3 {
             e[i] += v[i];
         }
     }
     vacuity(mode, &rows, run);
-    let mut transitions = a.transitions + b.transitions;
-    let mut states = a.states + b.states;
+    let mut transitions = a.transitions + b.transitions + d.transitions;
+    let mut states = a.states + b.states + d.states;
     let mut evaluations = transitions;
     if mode == Mode::C01 {
         let (max_len, max_limit) = if quick { (3, 8) } else { (5, 12) };
